@@ -102,6 +102,11 @@ class AsyncIORuntime(SubscriptionRuntime):
                     # field error of a later subscription event) on its behalf.
                     for fut in futures:
                         fut.cancel()
+                    # ... and wait until they are actually over, so that
+                    # whatever they still do while being cancelled (e.g. the
+                    # end hook of a field in flight) happens before the
+                    # failure is reported upwards.
+                    await asyncio.gather(*futures, return_exceptions=True)
                     raise
                 for i, awaited in zip(pending_idx, results):
                     done[i] = awaited
@@ -123,7 +128,9 @@ class AsyncIORuntime(SubscriptionRuntime):
             async def _await_value() -> G:
                 try:
                     return then(await cast(Awaitable[T], value))
-                except Exception as err:
+                except BaseException as err:
+                    # BaseException: a handler registered for it also sees the
+                    # cancellation of this awaitable (asyncio.CancelledError).
                     if else_ and isinstance(err, else_[0]):
                         return else_[1](err)
                     raise
